@@ -120,8 +120,11 @@ example : (step exW (.init 1 .popitem)).2 = .raised "KeyError" := by decide
 example : (step exW (.init 0 (.update [("a", 4), ("b", 4)]))).2 = .raised "ValueError" := by decide
 example : (step exW (.init 0 (.setdefault "k" 1))).2 = .raised "ValueError" := by decide
 example : (step exW (.init 0 (.register 0))).2 = .raised "ValueError" := by decide
-example : (step exW (.setName 3 none)).2 = .raised "ValueError" := by decide
-example : (step exW (.setName 3 (some ""))).2 = .raised "ValueError" := by decide
+example : (step exW (.setName 3 none)).2 = .raised "ValueError|AttributeError" := by decide
+example : (step exW (.setName 3 (some ""))).2 = .raised "ValueError|AttributeError" := by decide
+/-- a const tensor that refuses the rename: raised, nothing changed (also for a plain value) -/
+example : (step (step exW (.setConst 4 true)).1 (.setName 4 (some "q"))).2 = .raised "ValueError|AttributeError" := by
+  decide
 example : (step exW (.append 0 1)).2 = .raised "ValueError" := by decide
 example : (step exW (.extend 0 [0, 1])).2 = .raised "ValueError" := by decide
 example : (step exW (.insertAfter 0 1 [0])).2 = .raised "ValueError" := by decide
@@ -131,7 +134,7 @@ example : (step exW (.remove 0 [0] true)).2 = .raised "ValueError" := by decide
 example : (step exW .sortCycle).2 = .raised "ValueError" := by decide
 example : (renameValues exW [3, 4] ["a", "a", "b"]).2 = .raised "ValueError" := by decide
 example : (renameValues exW [3, 3] ["a", "b"]).2 = .raised "ValueError" := by decide
-example : (renameValues exW [4, 3] ["q", ""]).2 = .raised "ValueError" := by decide
+example : (renameValues exW [4, 3] ["q", ""]).2 = .raised "ValueError|AttributeError" := by decide
 /-- the composite calls are NOT claimed atomic: a later pair is rejected after the first was applied -/
 example : (rauwMany exW [0, 1] [4, 4] false).2 = .raised "ValueError" ∧ (rauwMany exW [0, 1] [4, 4] false).1 ≠ exW := by
   decide
